@@ -149,6 +149,7 @@ def run(F, chk):
                 rc.violation(key, "%s:%d" % (f["file"], f["line"]), "field is skipped when serialised (%s) but has no #[serde(default)] and is not an Option: a saved state omitting it fails to load" % sk[0])
     chk.extra["C05_structs_scanned"] = n_adts
     converter_rule(F, chk)
+    replay_acceptance_rule(F, chk)
     # ---------------- R-C05-d ------------------------------------------------
     rd = chk.rule("R-C05-d", "T8", "listener patch types: master applier, worker applier and message agree on the field set", floor=60)
     for sname, (mfn, wfn) in sorted(APPLIERS.items()):
@@ -215,3 +216,37 @@ def converter_rule(F, chk):
                             r.violation(key, b.where(bi, si), "field %s of %s is not a plain copy of the source field: it passes through %s - the state key (computed from the request) and the stored/replayed value can disagree" % (fname, target.split("::")[-1], [x.split("::")[-1] for x in bad][:4]))
                         else:
                             r.ok(key, b.where(bi, si), "identity conversion", nontrivial=False)
+
+
+def replay_acceptance_rule(F, chk):
+    """R-C05-f: a saved or transferred state is replayed through the CREATING verbs (Add*Listener carries the listener as it
+    is now).  Replay can only `never fail` if the creating verb accepts every value that another verb was allowed to
+    store: whatever field add_<kind>_listener rejects (StateError::InvalidValue{field}) must be rejected for the same field
+    by update_<kind>_listener, the only other writer of that field."""
+    r = chk.rule("R-C05-f", "T8", "the creating verb of a listener rejects nothing its patch verb lets in", floor=4)
+    def rejected(fn):
+        out = set()
+        for p in cover.reach_functions(F, fn, depth=2, prefixes=("sozu_command_lib::",)):
+            b = F.body(p)
+            for bi, si, st in b.stmts():
+                rv = st.get("rv")
+                if rv and rv["k"] == "agg" and rv.get("var") == "InvalidValue" and rv.get("adt", "").endswith("StateError") and rv["ops"]:
+                    out.add(str(rv["ops"][0].get("c", "?")).strip('"').replace("const ", "").strip('"'))
+        return out
+    for kind in ("http", "https", "tcp", "udp"):
+        a, u = STATE + "::add_%s_listener" % kind, STATE + "::update_%s_listener" % kind
+        if not r.require(F.has(a) and F.has(u), "add_%s_listener / update_%s_listener not found" % (kind, kind)):
+            continue
+        r.fn(a, u)
+        ra_, ru_ = rejected(a), rejected(u)
+        patch_fields = set()
+        ub = F.body(u)
+        pty = ub.locals[2].lstrip("&") if ub.argc >= 2 else ""
+        if pty in F.adts:
+            patch_fields = {x["name"] for x in F.fields(pty)}
+        only_add = sorted(f for f in ra_ - ru_ if not patch_fields or f in patch_fields)
+        key = "%s listener|add rejects only what update rejects" % kind
+        if only_add:
+            r.violation(key, F.body(a).where(), "add_%s_listener rejects values of %s that update_%s_listener still stores: a listener patched to such a value is saved as an Add%sListener that the replay refuses, and the listener (and its activation) is lost on reload / worker bootstrap / upgrade" % (kind, only_add, kind, kind.capitalize()))
+        else:
+            r.ok(key, F.body(a).where(), "add rejects %s; update rejects %d field(s)" % (sorted(ra_) or "nothing", len(ru_)))
